@@ -34,3 +34,15 @@ Definition dclass (existing : bool) (n : nat) : nat :=
   | Some m => if same_meta m d_new then 2 else if same_meta m d_old then 1 else 9
   end.
 Definition dcase_ok (c : bool * nat * nat) : bool := match c with (ex, n, cl) => Nat.eqb (dclass ex n) cl end.
+
+(* DeleteObject ?versionId=<current> killed after k steps (Model/CrashPromote.v): the key held version 2 (data 8, current) and
+   version 1 (data 7); observed: what a GET of the key reads (2 = the data of version 2, 1 = that of version 1, 0 = nothing, 9 = anything else) and how many entries
+   ListObjectVersions shows for the key *)
+From VGW Require Import Model.CrashPromote.
+Definition pstart : pstate := {| pcurrent := Some {| p_data := 8; p_vid := 2; p_attrs := true |}; parchive := [(1, 7)] |}.
+Definition pcase_ok (c : nat * nat * nat) : bool :=
+  match c with (k, rd, nlisted) =>
+    let s' := prun_killed (promote_steps pstart) pstart k in
+    Nat.eqb rd (match preads s' with Some 8 => 2 | Some 7 => 1 | None => 0 | _ => 9 end) &&
+    Nat.eqb nlisted (length (pshown s'))
+  end.
